@@ -45,6 +45,15 @@ func (s zRSASigner) Sign(r io.Reader, digest []byte, opts crypto.SignerOpts) ([]
 	return rsaPrivOp(s.k, emsaPKCS1v15(opts.HashFunc(), digest, (s.k.N.BitLen()+7)/8)), nil
 }
 
+// detECSigner signs with RFC 6979 (rand == nil) so that the seed objects are the same bytes in every run.
+type detECSigner struct{ k *ecdsa.PrivateKey }
+
+func (s detECSigner) Public() crypto.PublicKey { return &s.k.PublicKey }
+
+func (s detECSigner) Sign(_ io.Reader, digest []byte, opts crypto.SignerOpts) ([]byte, error) {
+	return s.k.Sign(nil, digest, opts)
+}
+
 // detReader is a deterministic byte stream.
 type detReader struct{ r *rand.Rand }
 
@@ -104,7 +113,7 @@ func zSeeds() *zObjects {
 			if c == "P256" {
 				algs = append(algs, zx509.ECDSAWithSHA1, zx509.ECDSAWithSHA384)
 			}
-			sks = append(sks, sk{k, &k.PublicKey, algs})
+			sks = append(sks, sk{detECSigner{k}, &k.PublicKey, algs})
 			if b, err := stdx509.MarshalECPrivateKey(k); err == nil {
 				o.ECPriv = append(o.ECPriv, b)
 			}
@@ -229,7 +238,6 @@ func zSeeds() *zObjects {
 				})
 			}
 		}
-		_ = ecdsa.PublicKey{}
 	})
 	return zObjs
 }
